@@ -65,7 +65,7 @@ def run_case(job):
                "prepop": "o", "nested-prefix": "proj/in/api"}[outmode]
         foreign = {}
         if outmode == "prepop":
-            foreign = {"o/foreign.txt": "keep me\n", "o/notes/keep.rst": "unrelated page\n", "o/a.rst": "stale\n"}
+            foreign = {"o/foreign.txt": "keep me\n", "o/notes/keep.rst": "unrelated page\n", "o/a.rst": "stale page that is longer than anything generated " * 40 + "\n"}
             box.build(foreign)
         outrel = os.path.relpath(out if os.path.isabs(out) else box.path("work", out), box.root)
         before = box.snapshot()
